@@ -494,6 +494,23 @@ func derefsReceiver(g *ssa.Function) bool {
 					if bo, ok := ins.(*ssa.BinOp); ok && (bo.Op == token.EQL || bo.Op == token.NEQ) && (bo.X == ssa.Value(recv) || bo.Y == ssa.Value(recv)) {
 						tested = true
 					}
+					// the test may sit in a checking helper the receiver is handed to (t.checkX() testing t == nil)
+					if call, ok := ins.(*ssa.Call); ok {
+						if h := call.Call.StaticCallee(); h != nil && len(h.Blocks) > 0 && len(h.Params) == len(call.Call.Args) {
+							for i, a := range call.Call.Args {
+								if a != ssa.Value(recv) {
+									continue
+								}
+								for _, hb := range h.Blocks {
+									for _, hi := range hb.Instrs {
+										if bo, ok := hi.(*ssa.BinOp); ok && (bo.Op == token.EQL || bo.Op == token.NEQ) && (bo.X == ssa.Value(h.Params[i]) || bo.Y == ssa.Value(h.Params[i])) {
+											tested = true
+										}
+									}
+								}
+							}
+						}
+					}
 				}
 			}
 			if !tested {
